@@ -52,6 +52,8 @@ type Config struct {
 	// MaxAbnormal stops the exploration after that many abandoned executions (each
 	// leaks its goroutines).  0 = 500.
 	MaxAbnormal int
+	// Tick, if set, is called every 256 schedules (liveness heartbeat).
+	Tick func()
 }
 
 // Node is a schedule (its non-default choices) with its cost.
@@ -141,6 +143,20 @@ func Roots(cfg Config) (def *Exec, kids []Node) {
 	return x, children(x, Node{}, cfg.Budgets)
 }
 
+// Expand runs the schedule n once and returns its children (the schedules with
+// exactly one more non-default choice, at a later position).  Used to shard deeper
+// than the first level.
+func Expand(cfg Config, n Node) []Node {
+	x := Run(cfg.Setup(), n.Prefix, false)
+	if x.Abnormal() {
+		x.ResetDirty()
+	}
+	if x.Divergent != "" {
+		return nil
+	}
+	return children(x, n, cfg.Budgets)
+}
+
 // Explore executes the schedule `root` and every schedule below it (all schedules
 // whose list of non-default choices extends root's) that fits the budgets, each
 // exactly once, cheapest first (iterative bounding: all schedules of total cost c
@@ -171,6 +187,9 @@ func Explore(cfg Config, root Node, only bool) *Report {
 			stack = stack[:len(stack)-1]
 			x := Run(cfg.Setup(), n.Prefix, false)
 			r.Schedules++
+			if cfg.Tick != nil && r.Schedules&255 == 0 {
+				cfg.Tick()
+			}
 			r.ByCost[fmt.Sprintf("p%dd%d", n.P, n.D)]++
 			if x.npoints > r.MaxPoints {
 				r.MaxPoints = x.npoints
